@@ -43,7 +43,11 @@ func c01Random(seed uint64, i int, ntexts int) *c01Case {
 	pg := gen.NewPG(rng, sc)
 	p := pg.FindProgram()
 	src := gen.RenderProgram(p)
-	sm := gen.NewSampler(rng, p, TextAlphaFor(sc.Alpha))
+	ta := TextAlphaFor(sc.Alpha)
+	if i%4 == 1 {
+		ta = TextAlphaBoundary(sc.Alpha)
+	}
+	sm := gen.NewSampler(rng, p, ta)
 	texts := sm.Inputs(p.Commands[0].Body, ntexts, maxLenFor(p, 14))
 	return &c01Case{p, src, texts}
 }
